@@ -56,10 +56,21 @@ func init() {
 func runC20(c *Ctx) {
 	cf := c.MustFunc(pkgVelocity + ":CreateForwardingData")
 	if cf != nil {
+		// CreateForwardingData and the unexported helpers it was split into (writeKey(buf, …),
+		// sign(secret, buf.Bytes()) …), their parameters read as the call's arguments
+		cfParts, cfRestore := boundParts(cf, 1)
+		for _, f := range cfParts {
+			c.Analysed(f)
+		}
+		eachCF := func(f func(ssa.Instruction)) {
+			for _, part := range cfParts {
+				eachInstr(part, f)
+			}
+		}
 		var macNew, macWrite, sumWrite, payWrite ssa.Instruction
 		var macVal ssa.Value
 		var payloadBuf ssa.Value
-		eachInstr(cf, func(in ssa.Instruction) {
+		eachCF(func(in ssa.Instruction) {
 			cc := callOf(in)
 			if cc == nil {
 				return
@@ -81,14 +92,14 @@ func runC20(c *Ctx) {
 			c.Check("mac-construction", "hmac.New(sha256.New, secret)@CreateForwardingData", macNew, hashOK && keyOK,
 				fmt.Sprintf("the forwarding MAC must be HMAC-SHA256 keyed with the secret parameter (hash ok=%v, key ok=%v)", hashOK, keyOK))
 			// mac.Write(<buf>.Bytes())
-			eachInstr(cf, func(in ssa.Instruction) {
+			eachCF(func(in ssa.Instruction) {
 				cc := callOf(in)
 				if cc == nil || !cc.IsInvoke() || strip(cc.Value) != macVal {
 					return
 				}
 				if cc.Method.Name() == "Write" {
 					macWrite = in
-					if bc := callValue(cc.Args[0]); bc != nil && methodName(&bc.Call) == "Bytes" {
+					if bc := callValue(strip(cc.Args[0])); bc != nil && methodName(&bc.Call) == "Bytes" {
 						payloadBuf = bc.Call.Args[0]
 					}
 				}
@@ -97,7 +108,7 @@ func runC20(c *Ctx) {
 			// that reaches the buffer reaches the MAC
 			var multiW ssa.Value
 			if macWrite == nil {
-				eachInstr(cf, func(in ssa.Instruction) {
+				eachCF(func(in ssa.Instruction) {
 					cc := callOf(in)
 					if cc == nil || calleeName(cc) != "io.MultiWriter" || len(cc.Args) != 1 {
 						return
@@ -122,7 +133,7 @@ func runC20(c *Ctx) {
 			} else {
 				// no write into payloadBuf can happen after mac.Write
 				late := ""
-				eachInstr(cf, func(in ssa.Instruction) {
+				eachCF(func(in ssa.Instruction) {
 					cc := callOf(in)
 					if cc == nil || in == macWrite {
 						return
@@ -157,7 +168,7 @@ func runC20(c *Ctx) {
 					if m == "Bytes" || m == "Len" || m == "String" || m == "Cap" {
 						return
 					}
-					if flowsTo(macWrite, in) {
+					if flowsToIn(cf, macWrite, in) {
 						late = calleeName(cc)
 					}
 				})
@@ -169,12 +180,12 @@ func runC20(c *Ctx) {
 					"the payload buffer is written ("+late+") after the MAC was computed over it: the signature does not cover what is sent")
 				// output: data.Write(mac.Sum(nil)) then data.Write(payloadBuf.Bytes()), return data.Bytes()
 				var outBuf ssa.Value
-				eachInstr(cf, func(in ssa.Instruction) {
+				eachCF(func(in ssa.Instruction) {
 					cc := callOf(in)
 					if cc == nil || methodName(cc) != "Write" || cc.IsInvoke() || len(cc.Args) < 2 {
 						return
 					}
-					arg := callValue(cc.Args[1])
+					arg := callValue(strip(cc.Args[1]))
 					if arg == nil {
 						return
 					}
@@ -186,26 +197,44 @@ func runC20(c *Ctx) {
 						payWrite = in
 					}
 				})
-				fedBeforeSum := macWrite != nil && sumWrite != nil && domBefore(macWrite, sumWrite)
+				fedBeforeSum := macWrite != nil && sumWrite != nil && domBeforeIn(cf, macWrite, sumWrite)
 				if multiW != nil && sumWrite != nil {
 					// streaming: nothing is written through the MultiWriter once the sum was taken
 					fedBeforeSum = true
-					eachInstr(cf, func(in ssa.Instruction) {
+					eachCF(func(in ssa.Instruction) {
 						if cc := callOf(in); cc != nil {
 							for _, a := range cc.Args {
-								if strip(a) == multiW && flowsTo(sumWrite, in) {
+								if strip(a) == multiW && flowsToIn(cf, sumWrite, in) {
 									fedBeforeSum = false
 								}
 							}
 						}
 					})
 				}
-				okOrder := sumWrite != nil && payWrite != nil && domBefore(sumWrite, payWrite) &&
+				okOrder := sumWrite != nil && payWrite != nil && domBeforeIn(cf, sumWrite, payWrite) &&
 					strip(callOf(payWrite).Args[0]) == strip(outBuf) && fedBeforeSum
 				c.CheckAt("mac-first", "Sum-then-payload@CreateForwardingData", c.P.Pos(cf.Pos()), okOrder,
 					"the output must be the MAC followed by the signed payload, both written to the same output buffer, the MAC taken after it was fed")
 				okRet := false
-				for _, r := range returnsOf(cf) {
+				var succ []*ssa.Return
+				for _, part := range cfParts {
+					if part.Parent() != nil {
+						continue
+					}
+					for _, r := range returnsOf(part) {
+						// a return that hands on a helper's (result, error) pair is judged at the helper's returns
+						if ex, isEx := r.Results[0].(*ssa.Extract); isEx && len(r.Results) == 2 {
+							if hc, isC := ex.Tuple.(*ssa.Call); isC && moduleHelperWithBody(&hc.Call) != nil {
+								continue
+							}
+						}
+						if part != cf && outBuf != nil && part != outBuf.(ssa.Instruction).Parent() {
+							continue // a helper that does not build the output
+						}
+						succ = append(succ, r)
+					}
+				}
+				for _, r := range succ {
 					if len(r.Results) == 2 && isNilConst(r.Results[1]) {
 						if bc := callValue(r.Results[0]); bc != nil && methodName(&bc.Call) == "Bytes" && outBuf != nil && strip(bc.Call.Args[0]) == strip(outBuf) {
 							okRet = true
@@ -222,7 +251,7 @@ func runC20(c *Ctx) {
 					in   ssa.Instruction
 				}
 				var ws []w
-				eachInstr(cf, func(in ssa.Instruction) {
+				eachCF(func(in ssa.Instruction) {
 					cc := callOf(in)
 					if cc == nil || cc.IsInvoke() || len(cc.Args) < 2 || !isPayloadStream(cc.Args[0]) {
 						return
@@ -248,7 +277,7 @@ func runC20(c *Ctx) {
 						if x.name != want[i].name || x.arg != want[i].arg {
 							ok = false
 						}
-						if i > 0 && !domBefore(ws[i-1].in, x.in) {
+						if i > 0 && !domBeforeIn(cf, ws[i-1].in, x.in) {
 							ok = false
 						}
 					}
@@ -257,6 +286,7 @@ func runC20(c *Ctx) {
 					fmt.Sprintf("the signed payload must start with version, address, UUID, username, properties in that order; got %v", got))
 			}
 		}
+		cfRestore()
 	}
 
 	// forwarding version negotiation: every return is one of the four version constants, and each
@@ -315,9 +345,29 @@ func runC20(c *Ctx) {
 			}
 		}
 		nRet := 0
-		for _, r := range returnsOf(fv) {
+		fvParts, fvRestore := boundParts(fv, 1)
+		var fvReturns []*ssa.Return
+		for _, part := range fvParts {
+			c.Analysed(part)
+			fvReturns = append(fvReturns, returnsOf(part)...)
+		}
+		for _, r := range fvReturns {
 			if len(r.Results) != 1 {
 				continue
+			}
+			// the version picked by a helper is judged at the helper's own returns
+			if hc, isC := r.Results[0].(*ssa.Call); isC {
+				if g := moduleHelperWithBody(&hc.Call); g != nil {
+					isPart := false
+					for _, part := range fvParts {
+						if part == g {
+							isPart = true
+						}
+					}
+					if isPart {
+						continue
+					}
+				}
 			}
 			nRet++
 			k, isK := constInt(r.Results[0])
@@ -328,6 +378,14 @@ func runC20(c *Ctx) {
 			}
 			dom := func(p EdgePred) bool { g, n := MustCross(r, p); return g && n > 0 }
 			rr := RangeAt(r.Block(), isReq)
+			if r.Parent() != fv {
+				// a return inside a helper: what held for the request at the helper's call also holds here
+				if at := liftTo(fv, r); at != nil {
+					if outer := RangeAt(at.Block(), isReq); outer.HasLo() && (!rr.HasLo() || outer.Lo > rr.Lo) {
+						rr = outer
+					}
+				}
+			}
 			ok := true
 			why := ""
 			switch k {
@@ -351,7 +409,7 @@ func runC20(c *Ctx) {
 		}
 		// the request is clipped to the maximum version
 		clipped := false
-		eachInstr(fv, func(in ssa.Instruction) {
+		eachInstrDeep(fv, 1, func(in ssa.Instruction) {
 			if cl, ok := in.(*ssa.Call); ok {
 				if b, isB := cl.Call.Value.(*ssa.Builtin); isB && b.Name() == "min" {
 					for _, a := range cl.Call.Args {
@@ -363,13 +421,27 @@ func runC20(c *Ctx) {
 			}
 		})
 		c.CheckAt("forwarding-version", "requested-clipped-to-4@findForwardingVersion", c.P.Pos(fv.Pos()), clipped, "requested version must be clipped to the maximum forwarding version (4)")
+		fvRestore()
 	}
 
 	// proxy side
+	hlFuncs := map[*ssa.Function]bool{} // handleLoginPluginMessage and the helpers it was split into
 	if hl := c.MustFunc(pkgProxy + ":(*backendLoginSessionHandler).handleLoginPluginMessage"); hl != nil {
 		isCreate := callSuffix("velocity.CreateForwardingData")
 		var create *ssa.Call
-		for _, ci := range callsIn(hl, func(nm string, cc *ssa.CallCommon) bool {
+		hlParts, hlRestore := boundParts(hl, 1)
+		defer hlRestore()
+		callsInHL := func(m func(string, *ssa.CallCommon) bool) (out []ssa.CallInstruction) {
+			for _, part := range hlParts {
+				out = append(out, callsIn(part, m)...)
+			}
+			return
+		}
+		for _, part := range hlParts {
+			c.Analysed(part)
+			hlFuncs[part] = true
+		}
+		for _, ci := range callsInHL(func(nm string, cc *ssa.CallCommon) bool {
 			return strings.HasSuffix(nm, "velocity.CreateForwardingData")
 		}) {
 			create = ci.(*ssa.Call)
@@ -397,7 +469,7 @@ func runC20(c *Ctx) {
 			plOK := strings.HasSuffix(PathOf(create.Call.Args[2]), ".serverConn.player")
 			c.Check("response-fields", "player=serverConn.player@handleLoginPluginMessage", create, plOK, "forwarding data must describe the connecting player")
 			// the response write
-			for _, ci := range callsIn(hl, func(nm string, cc *ssa.CallCommon) bool { return methodName(cc) == "WritePacket" }) {
+			for _, ci := range callsInHL(func(nm string, cc *ssa.CallCommon) bool { return methodName(cc) == "WritePacket" }) {
 				pk := lastArg(ci.Common())
 				a, ok := strip(pk).(*ssa.Alloc)
 				if !ok || !typeIs(a.Type(), "proto/packet", "LoginPluginResponse") {
@@ -430,7 +502,7 @@ func runC20(c *Ctx) {
 				c.Check("response-fields", "only-if-data-created@handleLoginPluginMessage", ci, g && n > 0, "a response is written although creating the forwarding data failed")
 				// flag after successful write
 				nSt := 0
-				for _, st := range callsIn(hl, func(nm string, cc *ssa.CallCommon) bool {
+				for _, st := range callsInHL(func(nm string, cc *ssa.CallCommon) bool {
 					return methodName(cc) == "Store" && len(cc.Args) > 0 && strings.HasSuffix(PathOf(cc.Args[0]), ".informationForwarded")
 				}) {
 					nSt++
@@ -453,7 +525,7 @@ func runC20(c *Ctx) {
 		for _, st := range callsIn(fn, func(nm string, cc *ssa.CallCommon) bool {
 			return methodName(cc) == "Store" && len(cc.Args) > 0 && strings.HasSuffix(PathOf(cc.Args[0]), ".informationForwarded")
 		}) {
-			c.Check("forwarded-writers", "Store@"+shortName(fn), st, strings.HasSuffix(shortName(fn), "backendLoginSessionHandler).handleLoginPluginMessage"),
+			c.Check("forwarded-writers", "Store@"+shortName(fn), st, strings.HasSuffix(shortName(fn), "backendLoginSessionHandler).handleLoginPluginMessage") || hlFuncs[fn],
 				"informationForwarded may only be set by the forwarding responder")
 		}
 	}
